@@ -426,7 +426,9 @@ class UTPM(Ring, RawAlgorithmsMixIn):
             return UTPM.exp(UTPM.log(self)*r)
         else:
             x_data = self.data
-            y_data = numpy.zeros_like(x_data)
+            # a complex exponent gives a complex result also for real data
+            dtype = numpy.promote_types(x_data.dtype, numpy.asarray(r).dtype)
+            y_data = numpy.zeros(x_data.shape, dtype=dtype)
             self._pow_real(x_data, r, y_data)
             return self.__class__(y_data)
 
